@@ -81,6 +81,22 @@ def _matrix(n, r, nz, nd, ints, lc, seed):
     return A, c
 
 
+def _present(A, scale=1.0, form='C'):
+    """The matrix as handed to the library: overall factor `scale` (B = A A[I]^-1 and every quantity of the
+    property are invariant under it) and memory form: 'C' / 'F' contiguous, 'view' (non-contiguous slice of a
+    larger array), 'T' (transposed view of a C-contiguous [r, n] array)."""
+    A = A * scale if scale != 1.0 else A
+    if form == 'F':
+        return np.asfortranarray(A)
+    if form == 'view':
+        big = np.full((2 * A.shape[0], 2 * A.shape[1] + 1), 7.5)
+        big[::2, 1::2] = A
+        return big[::2, 1::2]
+    if form == 'T':
+        return np.ascontiguousarray(A.T).T
+    return A.copy()
+
+
 def _valid_index(I, n, m=None):
     if not isinstance(I, np.ndarray) or I.ndim != 1 or I.dtype.kind not in 'iu':
         return f'I is not a 1-D integer array: {type(I).__name__} {getattr(I, "shape", None)} {getattr(I, "dtype", None)}'
@@ -99,14 +115,15 @@ def _residual_ok(A, B, I):
 
 
 @clause('C08.maxvol.contract', funcs=('maxvol.maxvol',))
-def maxvol_contract(n, r, nz, nd, ints, lc, seed, e, k):
+def maxvol_contract(n, r, nz, nd, ints, lc, seed, e, k, scale=1.0, form='C'):
     """I: r distinct valid rows; A = B A[I]; B[I] = identity; k >= 1e5 (limit not hit): max|B| <= e and
-    the same dominance recomputed from I alone."""
+    the same dominance recomputed from I alone.  scale: overall factor of A; form: memory layout of A."""
     M = _matrix(n, r, nz, nd, ints, lc, seed)
     if M is None:
         return SKIP('rank-deficient construction')
     A, cond = M
-    A_in = A.copy()
+    A = A * scale
+    A_in = _present(A, 1.0, form)
     I, B = teneva.maxvol(A_in, e, k)
     msg = _valid_index(I, n, r)
     if msg:
@@ -133,12 +150,14 @@ def maxvol_contract(n, r, nz, nd, ints, lc, seed, e, k):
         if not mo <= e * (1. + 64. * r * EPS * cS):
             return FAIL(f'rows I are not dominant: max|A A[I]^-1| = {mo!r} > e = {e}')
         B0 = teneva.maxvol(A.copy(), e, 0)[1]          # classification only: was any row swap needed?
+        if not np.all(np.isfinite(B0)):
+            return FAIL('B of the LU start (k = 0) is not finite')
         return PASS if np.abs(B0).max() > e else TRIVIAL('the LU start is already dominant (no row swap needed)')
     return PASS
 
 
 @clause('C08.maxvol.exact', funcs=('maxvol.maxvol',))
-def maxvol_exact(r, levels, seed, e, k):
+def maxvol_exact(r, levels, seed, e, k, p2=0):
     """A = row permutation of vstack(c_1 Id, ..., c_L Id) with 1 = c_1 < ... < c_L = 2^(L-1): the only submatrix
     with max|A A[I]^-1| <= e < 2 consists of the rows of c_L Id; then B = A / c_L up to the column order."""
     g = gen.rng('C08.exact', r, levels, seed)
@@ -151,7 +170,7 @@ def maxvol_exact(r, levels, seed, e, k):
     T = np.eye(r)
     for j in range(r - 1):
         T[j, j + 1] = float(g.integers(-1, 2))
-    A = A @ T
+    A = (A @ T) * 2. ** p2              # p2: overall power-of-two factor (exact; B does not depend on it)
     I, B = teneva.maxvol(A.copy(), e, k)
     msg = _valid_index(I, n, r)
     if msg:
@@ -167,7 +186,7 @@ def maxvol_exact(r, levels, seed, e, k):
     if set(I.tolist()) != top:
         return FAIL(f'I = {sorted(I.tolist())} is not the unique dominant set {sorted(top)}')
     want = np.linalg.solve(A[I].T, A.T).T
-    if not np.allclose(B, want, rtol=0, atol=64 * r * EPS * 2. ** levels):
+    if not np.allclose(B, want, rtol=0, atol=64 * r * EPS * 2. ** levels) or not np.all(np.isfinite(B)):
         return FAIL('B differs from A A[I]^-1')
     return PASS
 
@@ -189,12 +208,12 @@ def maxvol_reject(n, r, seed):
     return PASS
 
 
-def _rect_call(A, e, dr_min, dr_max, e0, k0):
-    return teneva.maxvol_rect(A.copy(), e, dr_min, dr_max, e0, k0)
+def _rect_call(A, e, dr_min, dr_max, e0, k0, form='C'):
+    return teneva.maxvol_rect(_present(A, 1.0, form), e, dr_min, dr_max, e0, k0)
 
 
 @clause('C08.maxvol_rect.contract', funcs=('maxvol.maxvol_rect',))
-def rect_contract(n, r, nz, nd, ints, lc, seed, e, dr_min, dr_max, e0, k0):
+def rect_contract(n, r, nz, nd, ints, lc, seed, e, dr_min, dr_max, e0, k0, scale=1.0, form='C'):
     """r+dr_min <= |I| <= min(n, r+dr_max), distinct valid rows, B [n, |I|], A = B A[I], B[I] = identity,
     early stop => all row norms of B (and of A pinv(A[I])) <= e.  Quantifier: at least r+dr_min non-zero rows
     (otherwise see C08.maxvol_rect.distinct.zero_rows)."""
@@ -202,9 +221,10 @@ def rect_contract(n, r, nz, nd, ints, lc, seed, e, dr_min, dr_max, e0, k0):
     if M is None:
         return SKIP('rank-deficient construction')
     A, cond = M
+    A = A * scale
     if r + dr_min > int(A.any(axis=1).sum()):
         return SKIP('fewer non-zero rows than r+dr_min: covered by C08.maxvol_rect.distinct.zero_rows')
-    I, B = _rect_call(A, e, dr_min, dr_max, e0, k0)
+    I, B = _rect_call(A, e, dr_min, dr_max, e0, k0, form)
     hi = n if dr_max is None else min(n, r + dr_max)
     msg = _valid_index(I, n)
     if msg:
@@ -235,7 +255,7 @@ def rect_contract(n, r, nz, nd, ints, lc, seed, e, dr_min, dr_max, e0, k0):
 
 
 @clause('C08.maxvol_rect.distinct.zero_rows', funcs=('maxvol.maxvol_rect',))
-def rect_distinct_zero_rows(n, r, nz, lc, seed, e, dr_min, dr_max, e0, k0):
+def rect_distinct_zero_rows(n, r, nz, lc, seed, e, dr_min, dr_max, e0, k0, scale=1.0):
     """Fewer non-zero rows than r+dr_min <= n: growth is forced through zero rows (all residuals vanish);
     the selected rows must still be distinct, of the promised number, with B[I] = identity and A = B A[I]."""
     if not (n - nz < r + dr_min <= n):
@@ -244,6 +264,7 @@ def rect_distinct_zero_rows(n, r, nz, lc, seed, e, dr_min, dr_max, e0, k0):
     if M is None:
         return SKIP('rank-deficient construction')
     A, cond = M
+    A = A * scale
     I, B = _rect_call(A, e, dr_min, dr_max, e0, k0)
     hi = n if dr_max is None else min(n, r + dr_max)
     msg = _valid_index(I, n)
@@ -285,12 +306,13 @@ def rect_limits(n, r, seed):
 
 
 @clause('C08._maxvol.dispatch', funcs=('utils._maxvol', 'maxvol.maxvol', 'maxvol.maxvol_rect'))
-def maxvol_dispatch(n, r, dr_min, dr_max, seed):
+def maxvol_dispatch(n, r, dr_min, dr_max, seed, tau=1.1, tau0=1.05, k0=100, scale=1.0):
     """n <= r: (arange(n), eye(n)); otherwise dr_max clipped to n-r, dr_min to dr_max, and the result is the
     one of maxvol (clipped dr_max = 0) or maxvol_rect with the clipped limits (agreement clause), with the
-    row-count and reproduction identities of the statement."""
-    A = gen.rng('C08.dispatch', n, r, seed).normal(size=(n, r))
-    tau, tau0, k0 = 1.1, 1.05, 100
+    row-count and reproduction identities of the statement.  With k0 >= 1e5 (iteration limit not hit) the
+    accuracy parameters must arrive in the right slots: max|B| <= tau0 for the square variant (also re-derived
+    from I alone), row norms of B <= tau when the rectangular variant stopped before its upper limit."""
+    A = gen.rng('C08.dispatch', n, r, seed).normal(size=(n, r)) * scale
     I, B = teneva._maxvol(A.copy(), tau, dr_min, dr_max, tau0, k0)
     if n <= r:
         if not (isinstance(I, np.ndarray) and I.dtype.kind in 'iu' and np.array_equal(I, np.arange(n))):
@@ -305,15 +327,60 @@ def maxvol_dispatch(n, r, dr_min, dr_max, seed):
         return FAIL(msg)
     if not (r + dmin <= len(I) <= r + dmax) or len(set(I.tolist())) != len(I):
         return FAIL(f'|I| = {len(I)} outside [{r + dmin}, {r + dmax}] or not distinct: {I.tolist()}')
+    if not (isinstance(B, np.ndarray) and B.shape == (n, len(I))):
+        return FAIL(f'B has shape {getattr(B, "shape", None)} for |I| = {len(I)}')
     ok, res, tol = _residual_ok(A, B, I)
     if not ok:
         return FAIL(f'A != B A[I]: {res:.3e} > {tol:.3e}')
+    if k0 >= KBIG:
+        if dmax == 0:
+            S = A[I]
+            cS = np.linalg.cond(S)
+            mb = np.abs(B).max()
+            mo = np.abs(np.linalg.solve(S.T, A.T).T).max()
+            if not (mb <= tau0 and mo <= tau0 * (1. + 64. * r * EPS * cS)):
+                return FAIL(f'square variant: max|B| = {mb!r} (from I alone {mo!r}) > tau0 = {tau0}')
+        elif len(I) < r + dmax:
+            nb = np.linalg.norm(B, axis=1).max()
+            if not nb <= tau * (1. + 1e-10):
+                return FAIL(f'rectangular variant stopped at |I| = {len(I)} < {r + dmax} with a row norm {nb!r} > tau = {tau}')
     if dmax == 0:
         I2, B2 = teneva.maxvol(A.copy(), tau0, k0)
     else:
         I2, B2 = teneva.maxvol_rect(A.copy(), tau, dmin, dmax, tau0, k0)
     if not (np.array_equal(I, I2) and np.array_equal(B, B2)):
         return FAIL(f'differs from the direct call: I = {I.tolist()} vs {I2.tolist()}')
+    return PASS
+
+
+@clause('C08.defaults', funcs=('maxvol.maxvol', 'maxvol.maxvol_rect', 'utils._maxvol'))
+def defaults(n, r, seed, scale=1.0):
+    """Calls that leave the optional arguments out behave like calls with the documented defaults
+    (maxvol: e=1.05, k=100; maxvol_rect: e=1.1, dr_min=0, dr_max=None, e0=1.05, k0=10; _maxvol: tau=1.1, dr_min=0,
+    dr_max=0, tau0=1.05, k0=100) and satisfy the identities of the statement."""
+    A = gen.rng('C08.defaults', n, r, seed).normal(size=(n, r)) * scale
+    runs = (('maxvol', teneva.maxvol(A.copy()), teneva.maxvol(A.copy(), 1.05, 100), r, r),
+            ('maxvol_rect', teneva.maxvol_rect(A.copy()), teneva.maxvol_rect(A.copy(), 1.1, 0, None, 1.05, 10), r, n),
+            ('maxvol_rect(e, dr_min)', teneva.maxvol_rect(A.copy(), 1.5, 1),
+             teneva.maxvol_rect(A.copy(), 1.5, 1, None, 1.05, 10), r + 1, n),
+            ('_maxvol', teneva._maxvol(A.copy()), teneva._maxvol(A.copy(), 1.1, 0, 0, 1.05, 100), r, r))
+    for name, (I, B), (I2, B2), lo, hi in runs:
+        msg = _valid_index(I, n)
+        if msg:
+            return FAIL(f'{name}: {msg}')
+        if not (lo <= len(I) <= hi) or len(set(I.tolist())) != len(I) or B.shape != (n, len(I)):
+            return FAIL(f'{name}: |I| = {len(I)} outside [{lo}, {hi}] / not distinct / B{B.shape}: {I.tolist()}')
+        ok, res, tol = _residual_ok(A, B, I)
+        if not ok:
+            return FAIL(f'{name}: A != B A[I]: {res:.3e} > {tol:.3e}')
+        if not (np.array_equal(I, I2) and np.array_equal(B, B2)):
+            return FAIL(f'{name}: default call differs from the call with the documented defaults: '
+                        f'I = {I.tolist()} vs {I2.tolist()}')
+    I, B = runs[1][1]
+    if len(I) < n:                       # dr_max=None: the only stop before n rows is the accuracy criterion e=1.1
+        nb = np.linalg.norm(B, axis=1).max()
+        if not nb <= 1.1 * (1. + 1e-10):
+            return FAIL(f'maxvol_rect defaults: stopped at {len(I)} < {n} rows with a row norm {nb!r} > 1.1')
     return PASS
 
 
@@ -435,3 +502,86 @@ def cases(tier, seed):
             for dr_min in range(0, 4):
                 for dr_max in range(0, 7):
                     yield 'C08._maxvol.dispatch', dict(n=n, r=r, dr_min=dr_min, dr_max=dr_max, seed=0)
+    # accuracy parameters in the right slots (distinct values, limit not hit / hit at once), many rows, scales
+    for r in (range(1, 7) if big else range(1, 5)):
+        for dn in ((0, 1, 2, 12, 40, 120) if big else (0, 1, 12, 40)):
+            for (a, b) in ((0, 0), (0, 3), (1, 2), (2, 50), (3, 3)):
+                for (tau, tau0, k0) in ((3.0, 1.01, KBIG), (1.01, 2.5, KBIG), (1.3, 1.3, 1)):
+                    for sc in ((1.0, 1e-8, 1e8, 2. ** -300, 2. ** 300) if big else (1.0, 1e-8, 1e8)):
+                        yield 'C08._maxvol.dispatch', dict(n=r + dn, r=r, dr_min=a, dr_max=b, seed=1 + dn, tau=tau,
+                                                           tau0=tau0, k0=k0, scale=sc)
+    # ---- overall scale of the input (every quantity of the property is invariant under A -> c A)
+    scales = (1e-8, 1e-4, 1e4, 1e8, 2. ** -300, 2. ** 300) if big else (1e-8, 1e4, 2. ** -300, 2. ** 300)
+    sfams = ((0, 0, False), (0, 0, True), (1, 1, False), (2, 0, False), (0, 2, False))
+    for r in (rs if big else (1, 2, 3, 5)):
+        for dn in ((1, 2, 7, 20, 60) if big else (1, 3, 20)):
+            n = r + dn
+            for j, (nz, nd, ints) in enumerate(sfams):
+                if n - nz - nd < r:
+                    continue
+                for sc in scales:
+                    lc = 0. if ints else (0., 8., 4.)[(r + dn + j) % (3 if big else 2)]
+                    for k in (0, 1, KBIG):
+                        yield 'C08.maxvol.contract', dict(n=n, r=r, nz=nz, nd=nd, ints=ints, lc=lc, seed=r + dn, e=1.01,
+                                                          k=k, scale=sc)
+                    for dr_min in sorted({0, 1, dn}):
+                        if r + dr_min > n - nz:
+                            continue
+                        for dr_max in ((dr_min, dr_min + 2, None) if big else (dr_min + 2, None)):
+                            yield 'C08.maxvol_rect.contract', dict(
+                                n=n, r=r, nz=nz, nd=nd, ints=ints, lc=lc, seed=r * 10 + dn, e=(1.01, 2.)[(dr_min + j) % 2],
+                                dr_min=dr_min, dr_max=dr_max, e0=1.05, k0=10, scale=sc)
+    for r in (2, 3, 5):                                      # swap loop / early stop really run at every scale
+        for dn in (40, 100):
+            for sc in scales:
+                for rep in range(3 if big else 1):
+                    sd = 300 + rep if rep < 1 else s()
+                    yield 'C08.maxvol.contract', dict(n=r + dn, r=r, nz=0, nd=rep % 2, ints=False, lc=(0., 6.)[rep % 2],
+                                                      seed=sd, e=1.01, k=KBIG, scale=sc)
+                    yield 'C08.maxvol_rect.contract', dict(n=r + dn, r=r, nz=rep % 2, nd=0, ints=False, lc=-1., seed=sd,
+                                                           e=1.2, dr_min=0, dr_max=None, e0=1.05, k0=10, scale=sc)
+    for r in (1, 2, 3):
+        for sc in scales:
+            yield 'C08.maxvol_rect.distinct.zero_rows', dict(n=r + 3, r=r, nz=2, lc=0., seed=r + 3, e=1.1, dr_min=2,
+                                                             dr_max=None, e0=1.05, k0=10, scale=sc)
+    for r in (rs if big else (1, 2, 4)):
+        for p2 in (-500, -27, 27, 500):
+            for k in (0, KBIG):
+                yield 'C08.maxvol.exact', dict(r=r, levels=3, seed=0, e=1.5, k=k, p2=p2)
+    # ---- memory layout of the input (Fortran order, non-contiguous view, transposed view)
+    for r in ((1, 2, 3, 5, 8) if big else (1, 3, 5)):
+        for dn in (1, 7, 40):
+            for form in ('F', 'view', 'T'):
+                for rep in range(2 if big else 1):
+                    sd = r + dn if rep == 0 else s()
+                    for k in (1, KBIG):
+                        yield 'C08.maxvol.contract', dict(n=r + dn, r=r, nz=rep, nd=0, ints=False, lc=0., seed=sd, e=1.01,
+                                                          k=k, form=form)
+                    for (a, b) in ((0, None), (1, 2), (0, 0)):
+                        yield 'C08.maxvol_rect.contract', dict(n=r + dn, r=r, nz=0, nd=rep, ints=False, lc=0., seed=sd,
+                                                               e=1.1, dr_min=a, dr_max=b, e0=1.05, k0=10, form=form)
+    # ---- random: any scale, any layout, more iteration limits
+    for rep in range(1500 if big else 200):
+        r = int(g.integers(1, rs[-1] + 1))
+        dn = int(g.choice([1, 2, 3, 7, 20, 60]))
+        n = r + dn
+        nz, nd, ints = fams[int(g.integers(len(fams)))]
+        if n - nz - nd < r:
+            nz, nd = 0, 0
+        sc = float(10. ** int(g.integers(-12, 13)))
+        form = ('C', 'F', 'view', 'T')[int(g.integers(4))]
+        lc = float(g.choice(lcs))
+        yield 'C08.maxvol.contract', dict(n=n, r=r, nz=nz, nd=nd, ints=ints, lc=lc, seed=s(),
+                                          e=float(g.choice([1.01, 1.05, 1.5, 100.])),
+                                          k=int(g.choice([0, 3, 5, 10, 100, KBIG])), scale=sc, form=form)
+        dr_min = int(g.integers(0, max(0, dn - nz) + 1))
+        dr_max = [dr_min, dr_min + 1, dr_min + 4, None][int(g.integers(4))]
+        yield 'C08.maxvol_rect.contract', dict(n=n, r=r, nz=nz, nd=nd, ints=ints, lc=lc, seed=s(),
+                                               e=float(g.choice([1.01, 1.1, 1.5, 3.])), dr_min=dr_min, dr_max=dr_max,
+                                               e0=float(g.choice([1.01, 1.05, 2.])), k0=int(g.choice([1, 2, 10, 100])),
+                                               scale=sc, form=form)
+    # ---- default arguments
+    for r in (range(1, 8) if big else range(1, 6)):
+        for dn in (1, 3, 30, 100):
+            for j, sc in enumerate((1.0, 1e-7, 1e7)):
+                yield 'C08.defaults', dict(n=r + dn, r=r, seed=dn + 7 * j, scale=sc)
